@@ -1377,6 +1377,15 @@ func (fx *FnExec) evalCallC(x *ast.CallExpr, env *evalEnv) (cval, error) {
 			return cval{}, err
 		}
 		return boolr("(" + fn.Name + " ((" + qn + " " + sort + ")) " + body.S + ")")
+	case "literal": // literal(x): x is a string constant of the source
+		v, err := fx.evalC(x.Args[0], env)
+		if err != nil {
+			return cval{}, err
+		}
+		if strings.HasPrefix(v.S, "str_") && !strings.Contains(v.S, " ") {
+			return boolr("true")
+		}
+		return boolr("false")
 	case "rangeover": // rangeover(): the slice a "for ... := range" loop walks (it often has no name)
 		if env.loop == nil {
 			return cval{}, fmt.Errorf("rangeover() outside a loop clause")
